@@ -109,7 +109,9 @@ def gen_graph_case(rng, thorough):
         perm = list(range(m))
         rng.shuffle(perm)
         edges = [(perm[a], perm[b]) for a, b in edges]
-    es = G.label(edges, G.pick_labels(rng, m, pool=G.POOL_PLAIN))
+    # 40%: several prefixes sharing their id parts (HP:1 / MP:1 / ZZ:1): a cache keyed by part of an id shows
+    twins = [p + ':' + str(i) for i in (1, 2, 3, 4, 5, 6, 7, 9, 10, 11) for p in ('HP', 'MP', 'ZZ')]
+    es = G.label(edges, G.pick_labels(rng, m, pool=twins if rng.random() < 0.4 and m <= len(twins) else G.POOL_PLAIN))
     nodes = G.nodes_of(es)
     queries = [['trav', q, x, incl] for x in nodes for q in 'PCAD' for incl in (False, True)]
     nq = len(queries)
